@@ -243,7 +243,7 @@ pub fn run(rep: &Report) -> i32 {
                 }
             }
         }
-        if ji % 499 == 3 {
+        if ji % 499 == 3 || rep.no_sample_yet() {
             rep.sample(4, || json!({"label": label, "program": p.render()}));
         }
     });
